@@ -55,9 +55,10 @@ TwinInputs == IF WithTwins THEN {x \in TwinSeqs(2) \X TwinSeqs(2) : Len(x[1]) + 
 \* where the objects come from: one code 0..3 per element, spread over the cases
 Prov(s, salt) == [k \in DOMAIN s |-> (s[k] + 2 * k + salt) % 4]
 
-\* zero-extent geometries (with zero buffers): a zero-length interval, a TimeStamp, a zero-duration box -- next to
+\* zero-extent geometries (with zero buffers): a zero-length interval and a zero-duration box at the same instant, a
+\* TimeStamp at another instant (disjoint in time from both: affinity 0, not 0/0) -- next to
 \* proper ones whose affinities are fractions
-Degenerate == << G("TimeInterval", <<1, 1>>), G("TimeStamp", 1), G("BoundingBox", <<1, 0, 1, 2>>),
+Degenerate == << G("TimeInterval", <<1, 1>>), G("TimeStamp", 2), G("BoundingBox", <<1, 0, 1, 2>>),
                  G("TimeInterval", <<0, 2>>), G("TimeInterval", <<1, 3>>), G("BoundingBox", <<0, 0, 2, 2>>) >>
 
 \* kinds that are buffered, next to TimeStamps: with TB = 2, 4 ticks the buffer exceeds 1 s at unit 1 s
